@@ -102,6 +102,19 @@ def scoreSum (p : SProfile) : Votes :=
 /-- `ScoreVoting('sum').evaluate(votes, 1)` (cardinal.py L63-75) -/
 def evalScoreSum (p : SProfile) : List Slot := getNBest (scoreSum p) 1
 
+/-- total weight of the ballots that score each candidate (`n_scores` of `_correct_candidate_scores`, convert.py L223) -/
+def scoredWeight (p : SProfile) : Votes :=
+  p.foldl (fun agg bw => bw.1.foldl (fun agg cs => addTo agg cs.1 bw.2) agg) []
+
+/-- `ScoreToSimpleVotes('sum', unscored_value=u).convert` for a numeric `u`: every candidate's table receives
+    `scores[u] = n_votes - n_scores + scores.get(u, 0)` (convert.py L229-240), i.e. the ballots that do not score the
+    candidate count as `u`; under the sum this adds `(n_votes - n_scores) * u` -/
+def scoreSumU (u : Rat) (p : SProfile) : Votes :=
+  (scoreSum p).map (fun e => (e.1, e.2 + (sumValues p - getD (scoredWeight p) e.1 0) * u))
+
+/-- `ScoreVoting('sum', unscored_value=u).evaluate(votes, 1)` -/
+def evalScoreSumU (u : Rat) (p : SProfile) : List Slot := getNBest (scoreSumU u p) 1
+
 /-- `PreferenceAddition._add_round_votes` (sequential.py L600-616) with coefficient 1 and nobody elected yet;
     a shared rank gives its whole weight to every member (the `isinstance(preference, Set)` branch) -/
 def bucklinRound (p : RProfile) (i : Nat) (tot : Votes) : Votes :=
